@@ -358,6 +358,46 @@ pub fn run_check(prop: &dyn Prop, cfg: &RunCfg) -> i32 {
     };
     let pid = prop.id();
     println!("VERIF_SEED={} property={} tier={:?} threads={}", cfg.seed, pid, cfg.tier, cfg.threads);
+    // regression inputs: the minimised traces of defects that were found and repaired are replayed
+    // first, so a defect that returns is reported with exactly the trace that exposed it
+    let mut regressions = 0;
+    let mut files: Vec<std::path::PathBuf> = Vec::new();
+    for sub in ["findings", "corpus"] {
+        if let Ok(rd) = std::fs::read_dir(format!("{}/{}", cfg.verif_dir, sub)) {
+            files.extend(rd.filter_map(|e| e.ok()).map(|e| e.path()).filter(|p| p.to_string_lossy().ends_with(".replay.json")));
+        }
+    }
+    files.sort();
+    {
+        for f in files {
+            let text = match std::fs::read_to_string(&f) {
+                Ok(t) => t,
+                Err(_) => continue,
+            };
+            let j = match json::parse(&text) {
+                Ok(j) => j,
+                Err(_) => continue,
+            };
+            if j.get("property").and_then(|x| x.str()) != Some(pid) {
+                continue;
+            }
+            if j.get("window").and_then(|x| x.usize()).map(|w| w != crate::model::WINDOW).unwrap_or(false) {
+                continue;
+            }
+            if let Some(case) = j.get("case") {
+                let mut st = Stats::default();
+                regressions += 1;
+                if let Ok(RunOut { violation: Some(v), .. }) = prop.exec(case, &mut st) {
+                    if !known.iter().any(|k| k.property == pid && k.signature == v.class) {
+                        println!("VIOLATION property={} replay={}", pid, f.display());
+                        println!("  class={} step={} (regression input: a repaired defect is back)", v.class, v.step);
+                        println!("  detail={}", v.detail);
+                        return 1;
+                    }
+                }
+            }
+        }
+    }
     let sum = execute_range(prop, cfg, &known);
     if !sum.harness_errors.is_empty() {
         for e in &sum.harness_errors {
@@ -425,6 +465,7 @@ pub fn run_check(prop: &dyn Prop, cfg: &RunCfg) -> i32 {
                 ]),
             ),
             ("replay_selfcheck", J::Int(sum.replay_selfcheck as i128)),
+            ("regression_inputs_replayed", J::Int(regressions as i128)),
             ("trace_digest", json::s(&format!("{:016x}", sum.digest))),
             ("known_finding_hits", J::Obj(sum.known_hits.iter().map(|(k, v)| (k.clone(), J::Int(*v as i128))).collect())),
             ("exhaustive", J::Bool(false)),
